@@ -18,13 +18,25 @@ type pollCtx struct {
 	at    int
 	polls int
 	kind  int // 0 canceled, 1 deadline exceeded
+	// done is closed as soon as a poll has observed the cancellation, so that
+	// code selecting on Done() sees the same instant as code polling Err()
+	done       chan struct{}
+	doneClosed bool
 }
 
 func (c *pollCtx) cancelled() bool { return c.polls > c.at }
 
+func (c *pollCtx) closeDone() {
+	if c.done != nil && !c.doneClosed {
+		c.doneClosed = true
+		close(c.done)
+	}
+}
+
 func (c *pollCtx) Err() error {
 	c.polls++
 	if c.polls > c.at {
+		c.closeDone()
 		if c.kind == 0 {
 			return context.Canceled
 		}
@@ -33,7 +45,15 @@ func (c *pollCtx) Err() error {
 	return nil
 }
 func (c *pollCtx) Deadline() (time.Time, bool) { return time.Time{}, false }
-func (c *pollCtx) Done() <-chan struct{}         { return nil }
+func (c *pollCtx) Done() <-chan struct{} {
+	if c.done == nil {
+		c.done = make(chan struct{})
+	}
+	if c.cancelled() {
+		c.closeDone()
+	}
+	return c.done
+}
 func (c *pollCtx) Value(any) any                 { return nil }
 
 func (c *pollCtx) wantCode() Code {
@@ -273,4 +293,53 @@ func HarnessC15Handler() {
 	in := []byte{7}
 	_, err := client.CallUnary(context.Background(), NewRequest(&in))
 	check(err != nil && CodeOf(err) == want, "a handler returning its context's error conveys canceled / deadline_exceeded to the client")
+}
+
+// HarnessC15ExpiredBeforeHandler: the peer's timeout is already over when the
+// request reaches the handler (a zero Connect-Timeout-Ms / Grpc-Timeout, or
+// one that ran out while the request was queued): a unary handler's user code
+// does not run and the peer is told deadline_exceeded - not canceled, not
+// success; a streaming handler that returns its context's error conveys
+// deadline_exceeded as well.
+//
+//verif:harness property=C15 stubs=json,wire,ctx shard=proto:3
+func HarnessC15ExpiredBeforeHandler() {
+	proto := nondetChoice("proto", 3)
+	streaming := nondetBool("streaming")
+	userCalls := 0
+	var handler *Handler
+	if streaming {
+		handler = NewServerStreamHandler("/pkg.Svc/Method", func(ctx context.Context, req *Request[[]byte], s *ServerStream[[]byte]) error {
+			userCalls++
+			return ctx.Err()
+		}, stackHandlerOptions()...)
+	} else {
+		handler = NewUnaryHandler("/pkg.Svc/Method", func(ctx context.Context, req *Request[[]byte]) (*Response[[]byte], error) {
+			userCalls++
+			out := []byte{1}
+			return NewResponse(&out), nil
+		}, stackHandlerOptions()...)
+	}
+	unaryConnect := proto == 0 && !streaming
+	ct := []string{"application/connect+proto", "application/grpc+proto", "application/grpc-web+proto"}[proto]
+	body := refFrame(0, []byte{0x41})
+	if unaryConnect {
+		ct, body = "application/proto", []byte{0x41}
+	}
+	header := http.Header{"Content-Type": {ct}}
+	if proto == 0 {
+		header.Set("Connect-Timeout-Ms", "0")
+	} else {
+		header.Set("Grpc-Timeout", "0"+string([]byte{"numSMH"[nondetChoice("unit", 6)]}))
+	}
+	rec := newRecWriter()
+	req := &http.Request{Method: "POST", ProtoMajor: 2, Header: header, Body: &faultReader{data: body, cut: len(body)}}
+	handler.ServeHTTP(rec, req)
+	status, rh, rt, rbody := rec.finish()
+	code, wellFormed := c07ResponseCode(proto, unaryConnect, status, rh, rt, rbody)
+	check(wellFormed, "the response is well-formed")
+	check(code == int(CodeDeadlineExceeded), "a call whose deadline has passed before the handler runs is answered with deadline_exceeded")
+	if !streaming {
+		check(userCalls == 0, "a unary implementation does not run once its deadline has passed")
+	}
 }
